@@ -165,7 +165,7 @@ pub fn run(cfg: &RunCfg, stats: &mut Stats, exhaustive: &mut bool, extra: &mut V
             Ok(()) => run_call_sites(cfg, stats),
             Err(f) => Outcome::Violation(Violation { replay: json!({"property": cfg.id, "kind": "macro_paths", "clause": f.clause, "detail": f.detail}), fail: f }),
         },
-        "C02" | "C03" | "C08" | "C12" | "C13" | "C14" => match macro_paths(&cfg.id, stats) {
+        "C02" | "C03" | "C08" | "C12" | "C13" | "C14" => match macro_paths(&cfg.id, stats).and_then(|_| if cfg.id == "C12" || cfg.id == "C13" { push_situations(&cfg.id, stats) } else { Ok(()) }) {
             Ok(()) => Outcome::Pass,
             Err(f) => Outcome::Violation(Violation { replay: json!({"property": cfg.id, "kind": "macro_paths", "clause": f.clause, "detail": f.detail}), fail: f }),
         },
@@ -206,6 +206,7 @@ pub fn replay(id: &str, v: &Value) -> Result<Option<Fail>, String> {
         },
         ("C16", "string") => Ok(c16_string(v["text"].as_str().ok_or("text")?, &mut st).err()),
         ("C16", "values") => Ok(c16_values(&mut st).err()),
+        ("C16", "concurrent") => Ok(c16_concurrent(20_000, &mut st).err()),
         ("C16", "boundary_lengths") => Ok(c16_boundary_lengths(&mut st).err().map(|x| x.0)),
         ("C16", "bitboard") => Ok(c16_bitboard(v["bits"].as_u64().ok_or("bits")?, &mut st).err()),
         ("C04", "position") => {
@@ -229,7 +230,7 @@ pub fn replay(id: &str, v: &Value) -> Result<Option<Fail>, String> {
                 _ => Err("bad start".into()),
             }
         }
-        (_, "macro_paths") => Ok(macro_paths(id, &mut st).and_then(|_| if id == "C19" { endurance(&mut st) } else { Ok(()) }).err()),
+        (_, "macro_paths") => Ok(macro_paths(id, &mut st).and_then(|_| if id == "C19" { endurance(&mut st) } else if id == "C12" || id == "C13" { push_situations(id, &mut st) } else { Ok(()) }).err()),
         (_, "call_site") => {
             let start = crate::drive::start_from_json(&v["start"])?;
             let actions: Vec<arimaa_engine_step::Action> = v["actions"].as_array().ok_or("actions")?.iter().filter_map(|x| x.as_str()).map(crate::drive::parse_action_text).collect::<Result<_, _>>()?;
@@ -878,6 +879,93 @@ pub fn endurance(st: &mut Stats) -> Check {
 }
 
 // =====================================================================================
+// Push situations on every square (C12, C13): for every vacated square v, every pusher square p next to
+// it, every square w the pushed piece goes to and every square q of a second, stronger friendly piece
+// next to v - free, or frozen by a stronger enemy piece on each of its other neighbours in turn - the
+// push is started through the offered action and the resulting state is observed. Both colours.
+// The oracle is the model, as everywhere; the enumeration only makes sure that every square of the board
+// (corners, edges, trap neighbourhoods) has been the scene.
+// =====================================================================================
+pub fn push_situations(id: &str, st: &mut Stats) -> Check {
+    let mk = match registry::observer_for(id) {
+        Some(m) => m,
+        None => return Ok(()),
+    };
+    let mut n = 0u64;
+    for v in 0..64u8 {
+        for p in m::neighbours(v) {
+            for w in m::neighbours(v) {
+                if w == p {
+                    continue;
+                }
+                for q in m::neighbours(v) {
+                    if q == p || q == w {
+                        continue;
+                    }
+                    let mut freezers: Vec<Option<u8>> = vec![None];
+                    freezers.extend(m::neighbours(q).filter(|&z| z != v && z != p && z != w).map(Some));
+                    for fz in freezers {
+                        for gold in [true, false] {
+                            let mut b = Board::empty();
+                            b.0[v as usize] = m::mk(!gold, m::C);
+                            b.0[p as usize] = m::mk(gold, m::D);
+                            b.0[q as usize] = m::mk(gold, m::H);
+                            if let Some(z) = fz {
+                                b.0[z as usize] = m::mk(!gold, m::M);
+                            }
+                            // a rabbit each, out of the way
+                            for (side, cands) in [(gold, [62u8, 57, 6, 1]), (!gold, [5u8, 2, 61, 58])] {
+                                for c in cands {
+                                    let row_ok = if side { c / 8 != 0 } else { c / 8 != 7 };
+                                    if row_ok && b.at(c) == m::EMPTY && !m::neighbours(c).any(|x| b.at(x) != m::EMPTY) && ![v, p, w, q].contains(&c) {
+                                        b.0[c as usize] = m::mk(side, m::R);
+                                        break;
+                                    }
+                                }
+                            }
+                            if !b.traps_legal() || !b.within_complement() || !b.has_rabbit(true) || !b.has_rabbit(false) {
+                                continue;
+                            }
+                            let eng = match engine_from_position(&b, gold, 5) {
+                                Ok(e) => e,
+                                Err(_) => continue,
+                            };
+                            let mut mo = Model::from_position(b, gold, 5);
+                            let dir = (0..4u8).find(|&d| m::neighbour(v, d) == Some(w));
+                            let push = match dir {
+                                Some(d) => m::MAction::Step { from: v, dir: d },
+                                None => continue,
+                            };
+                            if mo.result_at_turn_start().is_some() || !mo.offered().contains(&push) {
+                                continue;
+                            }
+                            let pa = to_action(push);
+                            let offered = guard(|| eng.valid_actions()).unwrap_or_default();
+                            if !offered.contains(&pa) {
+                                continue; // C01's business
+                            }
+                            let next = match guard(|| eng.take_action(&pa)) {
+                                Ok(x) => x,
+                                Err(_) => continue,
+                            };
+                            if mo.apply(push).is_err() {
+                                continue;
+                            }
+                            n += 1;
+                            st.eval();
+                            let mut obs = mk();
+                            obs.on_state(&crate::drive::View::new(&next, &mo, true), st).map_err(|f| Fail::new(&f.clause, format!("(constructed push situation: {} pushed from {} to {}, pusher on {}, second piece on {}{}) {}", m::code_letter(m::mk(!gold, m::C)), m::sq_name(v), m::sq_name(w), m::sq_name(p), m::sq_name(q), fz.map(|z| format!(", frozen from {}", m::sq_name(z))).unwrap_or_default(), f.detail)))?;
+                        }
+                    }
+                }
+            }
+        }
+    }
+    st.add("constructed_push_situations", n);
+    Ok(())
+}
+
+// =====================================================================================
 // C09: setup states whose position hashes agree in their low or high 32 bits, asked one right after
 // the other. Anything the engine remembers about "the last setup position" under a shortened key
 // answers the second question with the first one's answer. A few hundred thousand random prefixes
@@ -1149,6 +1237,9 @@ fn run_c16(cfg: &RunCfg, stats: &mut Stats, exhaustive: &mut bool, extra: &mut V
         }
     }
     stats.add("strings_from_all_unicode_scalars_in_templates", all_chars);
+    if let Err(f) = c16_concurrent(if cfg.thorough { 40_000 } else { 2_000 }, stats) {
+        return Outcome::Violation(Violation { replay: json!({"property": "C16", "kind": "concurrent", "clause": f.clause, "detail": f.detail}), fail: f });
+    }
     if let Err((f, text)) = c16_dictionary(stats) {
         return Outcome::Violation(Violation { replay: text_replay("C16", "string", &f, &text, cfg.seed, 0), fail: f });
     }
